@@ -29,6 +29,7 @@ type vfSRScript struct {
 		W    uint16 `json:"w"`
 		Ts   int64  `json:"ts"`
 		Len  int    `json:"len"`
+		Stale bool  `json:"stale"` // rtp: through the writer the stream had before its last Unbind (no event)
 		Pad  int    `json:"pad"` // rtp: > 0: padding bit with PaddingSize pad (appended at marshal time, not part of the payload); -1: padding bit alone
 		T    int64  `json:"t"`
 		K    int    `json:"k"`
@@ -123,6 +124,8 @@ func vfRunSR(t *testing.T, sc *vfSRScript, out *vfWriter) {
 		writer interceptor.RTPWriter
 	}
 	streams := map[uint32]*bound{}
+	staleStreams := map[uint32]*bound{} // the binding a stream had before its last Unbind
+	reuseHdr := &rtp.Header{}
 	payload := make([]byte, 65536)
 	base := sc.wireTs(0)
 	epochNTP := vfSREpoch.Unix() + 2208988800
@@ -146,10 +149,14 @@ func vfRunSR(t *testing.T, sc *vfSRScript, out *vfWriter) {
 				unb := *b.info // an equal description at another address
 				ic.UnbindLocalStream(&unb)
 				delete(streams, st.S)
+				staleStreams[st.S] = b
 			}
 			out.Emit(vfM{"a": "unbind", "s": st.S})
 		case "rtp":
 			b := streams[st.S]
+			if b == nil && st.Stale {
+				b = staleStreams[st.S]
+			}
 			if b == nil {
 				continue
 			}
@@ -157,8 +164,17 @@ func vfRunSR(t *testing.T, sc *vfSRScript, out *vfWriter) {
 				t.Fatalf("VERIF-INFRA bad rtp step %+v", st)
 			}
 			clock.Store(st.T)
+			wr := b.writer
+			if st.Stale { // a write that was in flight when the stream was removed: through the writer of the OLD binding (no event)
+				if ob := staleStreams[st.S]; ob != nil {
+					wr = ob.writer
+				} else {
+					continue
+				}
+			}
 			for i := 0; i < st.K; i++ {
-				hdr := &rtp.Header{
+				hdr := reuseHdr // the application fills ONE header object in place for every packet it writes
+				*hdr = rtp.Header{
 					Version: 2, SSRC: st.S, SequenceNumber: st.W + uint16(i), //nolint:gosec // wraps as on the wire
 					Timestamp: sc.wireTs(st.Ts),
 				}
@@ -169,7 +185,7 @@ func vfRunSR(t *testing.T, sc *vfSRScript, out *vfWriter) {
 					}
 				}
 				failRTP.Store(st.WFail)
-				n, err := b.writer.Write(hdr, payload[:st.Len], interceptor.Attributes{})
+				n, err := wr.Write(hdr, payload[:st.Len], interceptor.Attributes{})
 				failRTP.Store(false)
 				if st.WFail && !errors.Is(err, errVfSRInjected) {
 					t.Fatalf("VERIF-INFRA the injected write failure was not passed up: n=%d err=%v", n, err)
@@ -177,6 +193,9 @@ func vfRunSR(t *testing.T, sc *vfSRScript, out *vfWriter) {
 				if !st.WFail && (err != nil || n != st.Len) {
 					t.Fatalf("VERIF-INFRA write: n=%d err=%v", n, err)
 				}
+			}
+			if st.Stale {
+				continue
 			}
 			out.Emit(vfM{"a": "rtp", "s": st.S, "w": st.W, "ts": st.Ts, "len": st.Len, "t": st.T, "k": st.K, "pad": st.Pad})
 		case "report":
